@@ -600,7 +600,11 @@ func (hp *HPACK) AppendHeader(dst []byte, hf *HeaderField, store bool) []byte {
 	index, fullMatch = hp.search(hf)
 	if hf.sensible {
 		c = false
-		dst = append(dst, 16)
+		// Never indexed: a 4-bit prefix, not the 6 bits of a literal with
+		// incremental indexing. With 6 bits a name index of 16 or more spills
+		// into the pattern bits and the field turns into something else
+		// ("cookie", index 32, came out as a dynamic table size update).
+		bits, dst = 4, append(dst, 16)
 	} else {
 		if index > 0 { // key and/or value can be used as index
 			if fullMatch {
